@@ -173,7 +173,7 @@ class kFlowDecomp(pathmodel.AbstractPathModelDAG):
             )
         )
 
-        if k <= 0 or not isinstance(k, int):
+        if not isinstance(k, int) or k <= 0:
             utils.logger.error(f"{__name__}: k must be a positive integer, not {k}")
             raise ValueError(f"k must be a positive integer, not {k}")
         self.k = k
